@@ -51,6 +51,8 @@ struct Outage {
     fails: u32,
     code: u32,
     backoff: String,
+    /// set as soon as the first re-registration of this outage reaches the fake server
+    seen: Arc<std::sync::atomic::AtomicBool>,
 }
 
 impl Outage {
@@ -75,6 +77,7 @@ enum Served {
 
 /// Serve re-registrations until one is answered Ok or `op` finishes.
 async fn serve<T>(fake: &mut FakeServer, orig: &Frame, o: &Outage, op: &mut JoinHandle<T>) -> (Served, Option<T>) {
+    let seen = o.seen.clone();
     let mut attempts = 0u32;
     let mut rejected: Vec<Incoming> = Vec::new();
     let mut last_answer: Option<std::time::Instant> = None;
@@ -83,6 +86,7 @@ async fn serve<T>(fake: &mut FakeServer, orig: &Frame, o: &Outage, op: &mut Join
             inc = fake.incoming.recv() => {
                 let mut inc = match inc { Some(i) => i, None => return (Served::GaveUp(attempts), None) };
                 attempts += 1;
+                seen.store(true, std::sync::atomic::Ordering::SeqCst);
                 if let Some(t) = last_answer {
                     // attempt number `attempts` must have waited for its backoff delay after the previous failure
                     let gap = t.elapsed();
@@ -238,11 +242,22 @@ async fn publisher(fake: &mut FakeServer, cutter: &Cutter, client: &selium::Clie
     }
     for j in 1..=p.outages {
         cutter.outage(fake).await;
+        let seen = Arc::new(std::sync::atomic::AtomicBool::new(false));
+        let seen_op = seen.clone();
         let mut op = tokio::spawn(async move {
-            let r = publ.send(format!("lost{j}")).await;
+            // a write may still slip into the void before the client has observed the loss: the
+            // operation "hits the outage" once it fails or once a re-registration has been seen
+            let mut r = publ.send(format!("lost{j}")).await;
+            for _ in 0..40 {
+                if r.is_err() || seen_op.load(std::sync::atomic::Ordering::SeqCst) {
+                    break;
+                }
+                tokio::time::sleep(Duration::from_millis(50)).await;
+                r = publ.send(format!("lost{j}")).await;
+            }
             (publ, r)
         });
-        let (served, early) = serve(fake, &orig, &Outage { fails: p.fails[j - 1], code, backoff: p.backoff.clone() }, &mut op).await;
+        let (served, early) = serve(fake, &orig, &Outage { fails: p.fails[j - 1], code, backoff: p.backoff.clone(), seen: seen.clone() }, &mut op).await;
         let (pb, res) = match early {
             Some(x) => x,
             None => tokio::time::timeout(OP_BOUND, &mut op).await.map_err(|_| fail("hang", class, format!("outage {j}: send() neither completed nor failed within 20 s")))?.map_err(|e| fail("setup", "task", e.to_string()))?,
@@ -299,11 +314,12 @@ async fn subscriber(fake: &mut FakeServer, cutter: &Cutter, client: &selium::Cli
     }
     for j in 1..=p.outages {
         cutter.outage(fake).await;
+        let seen = Arc::new(std::sync::atomic::AtomicBool::new(false));
         let mut op = tokio::spawn(async move {
             let r = sub.next().await;
             (sub, r)
         });
-        let (served, early) = serve(fake, &orig, &Outage { fails: p.fails[j - 1], code, backoff: p.backoff.clone() }, &mut op).await;
+        let (served, early) = serve(fake, &orig, &Outage { fails: p.fails[j - 1], code, backoff: p.backoff.clone(), seen: seen.clone() }, &mut op).await;
         judge(&served, p, j, class)?;
         match served {
             Served::Recovered(inc, _) => {
@@ -370,11 +386,21 @@ async fn requestor(fake: &mut FakeServer, cutter: &Cutter, client: &selium::Clie
     }
     for j in 1..=p.outages {
         cutter.outage(fake).await;
+        let seen = Arc::new(std::sync::atomic::AtomicBool::new(false));
+        let seen_op = seen.clone();
         let mut op = tokio::spawn(async move {
-            let r = req.request(format!("q{j}")).await;
+            // a request written into the void before the loss was observed just times out: it did
+            // not "hit the outage"; issue it again (at most 4 times)
+            let mut r = req.request(format!("q{j}")).await;
+            for _ in 0..4 {
+                if !matches!(r, Err(SeliumError::RequestTimeout)) || seen_op.load(std::sync::atomic::Ordering::SeqCst) {
+                    break;
+                }
+                r = req.request(format!("q{j}")).await;
+            }
             (req, r)
         });
-        let (served, early) = serve(fake, &orig, &Outage { fails: p.fails[j - 1], code, backoff: p.backoff.clone() }, &mut op).await;
+        let (served, early) = serve(fake, &orig, &Outage { fails: p.fails[j - 1], code, backoff: p.backoff.clone(), seen: seen.clone() }, &mut op).await;
         judge(&served, p, j, class)?;
         match served {
             Served::Recovered(inc, _) => {
@@ -462,11 +488,19 @@ async fn requestor_clones(fake: &mut FakeServer, cutter: &Cutter, client: &seliu
     for j in 1..=p.outages {
         cutter.outage(fake).await;
         // clone b first: it recovers and its retried request is left unanswered for the moment
+        let seen_b = Arc::new(std::sync::atomic::AtomicBool::new(false));
+        let seen_op = seen_b.clone();
         let mut op_b = tokio::spawn(async move {
-            let r = b.request(format!("b{j}")).await;
+            let mut r = b.request(format!("b{j}")).await;
+            for _ in 0..3 {
+                if !matches!(r, Err(SeliumError::RequestTimeout)) || seen_op.load(std::sync::atomic::Ordering::SeqCst) {
+                    break;
+                }
+                r = b.request(format!("b{j}")).await;
+            }
             (b, r)
         });
-        let (served, early) = serve(fake, &orig, &Outage { fails: 0, code: REPLIER_ALREADY_BOUND, backoff: p.backoff.clone() }, &mut op_b).await;
+        let (served, early) = serve(fake, &orig, &Outage { fails: 0, code: REPLIER_ALREADY_BOUND, backoff: p.backoff.clone(), seen: seen_b.clone() }, &mut op_b).await;
         let mut cur_b = match served {
             Served::Recovered(inc, 1) if early.is_none() => inc,
             Served::Mismatch(m) => return Err(fail("re-registration-differs", class, m)),
@@ -474,11 +508,19 @@ async fn requestor_clones(fake: &mut FakeServer, cutter: &Cutter, client: &seliu
         };
         let fb = read_req(&mut cur_b, &format!("b{j}")).await.map_err(|e| fail("not-working-after-recovery", class, format!("outage {j}: clone b's retried request did not arrive: {e}")))?;
         // now clone a notices the loss and recovers while b's request is in flight
+        let seen_a = Arc::new(std::sync::atomic::AtomicBool::new(false));
+        let seen_op = seen_a.clone();
         let mut op_a = tokio::spawn(async move {
-            let r = a.request(format!("a{j}")).await;
+            let mut r = a.request(format!("a{j}")).await;
+            for _ in 0..3 {
+                if !matches!(r, Err(SeliumError::RequestTimeout)) || seen_op.load(std::sync::atomic::Ordering::SeqCst) {
+                    break;
+                }
+                r = a.request(format!("a{j}")).await;
+            }
             (a, r)
         });
-        let (served, early) = serve(fake, &orig, &Outage { fails: 0, code: REPLIER_ALREADY_BOUND, backoff: p.backoff.clone() }, &mut op_a).await;
+        let (served, early) = serve(fake, &orig, &Outage { fails: 0, code: REPLIER_ALREADY_BOUND, backoff: p.backoff.clone(), seen: seen_a.clone() }, &mut op_a).await;
         let mut cur_a = match served {
             Served::Recovered(inc, 1) if early.is_none() => inc,
             Served::Mismatch(m) => return Err(fail("re-registration-differs", class, m)),
@@ -526,7 +568,8 @@ async fn replier(fake: &mut FakeServer, cutter: &Cutter, client: &selium::Client
     }
     for j in 1..=p.outages {
         cutter.outage(fake).await;
-        let (served, early) = serve(fake, &orig, &Outage { fails: p.fails[j - 1], code, backoff: p.backoff.clone() }, &mut listen).await;
+        let seen = Arc::new(std::sync::atomic::AtomicBool::new(false));
+        let (served, early) = serve(fake, &orig, &Outage { fails: p.fails[j - 1], code, backoff: p.backoff.clone(), seen: seen.clone() }, &mut listen).await;
         judge(&served, p, j, class)?;
         match served {
             Served::Recovered(inc, _) => {
